@@ -54,6 +54,45 @@ def run(index, rep, tier):
     rep.rule("R17.5", "child-order independence: wherever a statistic picks children by position, the positions enter only symmetric expressions")
     rep.rule("R17.6", "treeness = internal / (internal + external): the accumulator fed by non-leaf edges is the numerator and the denominator adds both")
 
+    rep.rule("R17.8", "the statistics see the tree as it is: size, iteration, age and shape queries of Tree / Node / Edge and every function of treemeasure (with what they call inside the tree model) read no cached bipartition-encoding attribute")
+    with rep.section("R17.8"):
+        rep.floor("R17.8", "structure queries and their callees", 60, structure_query_rule(index, rep, "R17.8"))
+    rep.rule("R17.9", "one default precision: every parameter that carries the ultrametricity tolerance (ultrametricity_precision, and pybus_harvey_gamma's prec) defaults to the same number in the tree model, the tree statistics and the coalescent code")
+    with rep.section("R17.9"):
+        cm = index.module("dendropy.utility.constants")
+        cval = None
+        for st in cm.tree.body:
+            if isinstance(st, ast.Assign) and norm(st.targets[0]) == "DEFAULT_ULTRAMETRICITY_PRECISION":
+                try:
+                    cval = ast.literal_eval(st.value)
+                except Exception:
+                    cval = None
+        if not isinstance(cval, (int, float)):
+            raise AnalysisError("R17.9: constants.DEFAULT_ULTRAMETRICITY_PRECISION is not a numeric literal")
+        vals = {}
+        for m in (TREE.rsplit(".", 1)[0], TMS, "dendropy.model.coalescent", "dendropy.datamodel.treecollectionmodel"):
+            for f in index.functions_in_module(m):
+                a = f.node.args
+                pos = a.posonlyargs + a.args
+                dmap = dict(zip([x.arg for x in pos][len(pos) - len(a.defaults):], a.defaults))
+                dmap.update({k.arg: v for k, v in zip(a.kwonlyargs, a.kw_defaults) if v is not None})
+                for pn, dv in dmap.items():
+                    if pn == "ultrametricity_precision" or (pn == "prec" and "gamma" in f.name):
+                        if norm(dv).endswith("DEFAULT_ULTRAMETRICITY_PRECISION"):
+                            v = cval
+                        else:
+                            try:
+                                v = ast.literal_eval(dv)
+                            except Exception:
+                                v = norm(dv)
+                        vals.setdefault(v, []).append((f, dv))
+        tot = sum(len(v) for v in vals.values())
+        rep.floor("R17.9", "defaults of the ultrametricity tolerance", 8, tot)
+        major = max(vals, key=lambda k: len(vals[k]))
+        for v, sites in sorted(vals.items(), key=lambda kv: str(kv[0])):
+            for f, dv in sites:
+                rep.check(v == major, "R17.9", f.qualname, "default tolerance %s differs from the other entry points' %s" % (v, major), fn_where(f, dv), "%s defaults the tolerance to %s" % (f.qualname, major),
+                          "%s defaults the ultrametricity tolerance to %s while %d other entry points default to %s: the same slightly non-ultrametric tree is then accepted by one statistic and rejected by another with default arguments (the named constant resolves to %s)" % (f.qualname, v, len(vals[major]), major, cval))
     rep.rule("R17.7", "the statistics are functions of the tree alone: no function of the tree-statistics module keeps module-level state between calls")
     with rep.section("R17.7"):
         ng = module_state_rule(index, rep, "R17.7", [TMS])
